@@ -89,10 +89,12 @@ func (t *xTrial) rvCoq(v interface{}) string {
 	case int:
 		return fmt.Sprintf("(RInt (%d)%%Z)", x)
 	case float64:
-		if math.IsNaN(x) {
-			return "RNaN"
+		if math.IsNaN(x) || math.IsInf(x, 0) {
+			return "RNaN" // non-finite floats: no output position may show them
 		}
 		return strings.Replace(jvCoq(x), "JFloat", "RFloat", 1)
+	case float32:
+		return strings.Replace(jvCoq(float64(x)), "JFloat", "RFloat", 1)
 	case string:
 		return "(RStr " + coqStr(x) + ")"
 	case []interface{}:
@@ -198,11 +200,13 @@ func (t *xTrial) adversarial(r *Rng, ty *xTy) interface{} {
 	}
 	nullish := []interface{}{nil, xNilStr, math.NaN()}
 	switch ty.Name {
-	case "Int", "Odd":
+	case "Int":
+		return append(nullish, "x", 2147483648, -2147483649, 1.5, true, []interface{}{1}, xChan, 4, "NaN", "Inf", float32(2147483648), math.Inf(-1), 2147483648.0)[r.Intn(15)]
+	case "Odd":
 		return append(nullish, "x", 2147483648, -2147483649, 1.5, true, []interface{}{1}, xChan, 4)[r.Intn(10)]
 	case "Float":
 		// "NaN" parses as a float that is nullish only after serialisation
-		return append(nullish, "x", true, []interface{}{1}, xChan, "NaN", "nan", "NaN")[r.Intn(10)]
+		return append(nullish, "x", true, []interface{}{1}, xChan, "NaN", "nan", "Inf", "-Inf", math.Inf(1), math.Inf(-1))[r.Intn(13)]
 	case "Boolean":
 		return append(nullish, "x", "", "false", 0, 3, 1.5, xChan, []interface{}{1})[r.Intn(11)]
 	case "String", "ID":
